@@ -95,6 +95,18 @@ def run_case(case, sched_seed=None, choose=None, simultaneous=0.2, slow=None, in
     return rec
 
 
+def run_case_checked(case, **kw):
+    """run_case; a run that hung / could not be driven is repeated once with the same seed and choices: only a failure
+    that repeats is reported (a worker starved by an overloaded machine is not a finding, a scheduler that hangs is)"""
+    rec = run_case(case, **kw)
+    if any(run["broken"] or run["status"] == "hang" for run in rec["runs"]):
+        rec2 = run_case(case, **kw)
+        if rec2["runs"] and not any(run["broken"] or run["status"] == "hang" for run in rec2["runs"]):
+            rec2["retried"] = True
+            return rec2
+    return rec
+
+
 def seg_to_coq(seg):
     cfg = seg["cfg"]
     names = set(cfg["nodes"])
@@ -188,7 +200,7 @@ def explore_all_schedules(case, max_runs=200):
     bad_runs = 0
     while stack and runs < max_runs:
         prefix = stack.pop()
-        rec = run_case(case, sched_seed=None, choose=[prefix])
+        rec = run_case_checked(case, sched_seed=None, choose=[prefix])
         runs += 1
         records.append(rec)
         if not rec["runs"]:
